@@ -193,11 +193,11 @@ def run_case(binary, case, root, tag, watchdog=None, trace=False):
             continue
         with open(p, "wb") as f:
             f.write(data)
+    real_root = os.path.realpath(d)
     for name, target in case.links.items():
         p = os.path.join(d, name)
         os.makedirs(os.path.dirname(p), exist_ok=True)
-        os.symlink(target, p)
-    real_root = os.path.realpath(d)
+        os.symlink(target.replace("{ROOT}", real_root), p)
     cmd = ["prlimit", "--as=%d" % AS_LIMIT, "--", binary] + [a.replace("{ROOT}", real_root) for a in case.argv]
     case_dir = d
     if case.cwd:
@@ -283,8 +283,11 @@ def strip_comments(data):
     return re.sub(rb"//[^\n]*", b" ", data)
 
 
-def nesting_depth(data):
-    """Upper estimate of the syntax-tree depth of a source text: the number of
+def nesting_depth(data, operators=True):
+    """(operators=False: brackets and nesting keywords only - the measure of the RESOURCE class, fourth audit: a flat
+    chain of 65 operators is a 65-level tree for the recursion of the stack class, but it is no nesting of loops,
+    indices, calls or components, which is what C01-deep-nesting-resources is about.)
+    Upper estimate of the syntax-tree depth of a source text: the number of
     open brackets, plus, per open bracket level, the number of nesting keywords
     (`if`, `else`, `while`, `parallel`; a `for` counts 3: it desugars into
     block / while / block) and operator tokens since the last `;` at that
@@ -311,7 +314,7 @@ def nesting_depth(data):
             run[-1] += 3
         elif t in NESTERS:
             run[-1] += 1
-        elif OPER.match(t):
+        elif OPER.match(t) and operators:
             run[-1] += 1
         best = max(best, len(run) - 1 + sum(run))
     return best
@@ -388,6 +391,18 @@ def grammar_cases(ctx, n, counts, stats):
                         other, nm, rng.choice(["", "q", "q, r"]),
                         "return 1;" if other == "function" else "signal input i_; signal output o_; o_ <== i_;"))
                     stats["cross_file_name_clashes"].append(kind + "/" + other)
+            if rng.random() < 0.4:
+                # fourth audit: the inputs are given as a DIRECTORY that holds 0..3 symbolic links to itself, its parent, a
+                # sibling directory (which links back) or a file
+                files = {("proj/" + k if not k.startswith("lib/") and not k.startswith("work/") else k): v for k, v in files.items()}
+                argv = [("proj" if a in ("a.circom",) else a) for a in argv if a != "b.circom"]
+                nl = rng.randrange(4)
+                for j in range(nl):
+                    where, target = rng.choice([("proj/l%d", "."), ("proj/l%d", ".."), ("proj/l%d", "../lib"), ("lib/l%d", "../proj"),
+                                                ("proj/l%d.circom", "a.circom"), ("lib/l%d", ".")])
+                    links[where % j] = target
+                files.setdefault("lib/.keep", "")
+                stats["named_directory_links"].append(str(nl))
         if rng.random() < 0.35:
             files = {k: grammargen.relex(v, rng) for k, v in files.items()}
         counts.update(g.counts)
@@ -756,6 +771,38 @@ LIB_SPELLINGS = [            # (label, the -L argument(s) for the directory `lib
 ]
 
 
+def linked_directories():
+    """[Case]: a directory named on the command line (or given as `-L`) with 0..3 symbolic links in it."""
+    t = ("pragma circom 2.0.0;\n" + _tpl("T")).encode()
+    u = ("pragma circom 2.0.0;\n" + _tpl("U")).encode()
+    base = {"d/t.circom": t, "d/s/u.circom": u, "e/v.circom": ("pragma circom 2.0.0;\n" + _tpl("V")).encode(), "e/f/": b""}
+    link_sets = {
+        "none": {},
+        "self-1": {"d/a": "."},
+        "self-2": {"d/a": ".", "d/b": "."},
+        "self-3": {"d/a": ".", "d/b": ".", "d/c": "."},
+        "parent-1": {"d/s/up": ".."},
+        "parent-2": {"d/s/up": "..", "d/s/up2": ".."},
+        "self-and-parent": {"d/a": ".", "d/s/up": "..", "d/s/here": "."},
+        "root-2": {"d/r1": "..", "d/r2": ".."},                     # to the project root, which holds d and e
+        "root-3-deep": {"d/r1": "..", "d/s/r2": "../..", "e/f/r3": "../.."},
+        "sibling-cycle": {"d/to_e": "../e", "e/to_d": "../d"},
+        "sibling-cycle-2": {"d/to_e": "../e", "d/to_e2": "../e", "e/to_d": "../d", "e/to_d2": "../d"},
+        "sibling-and-self": {"d/to_e": "../e", "e/to_d": "../d", "d/a": ".", "e/b": "."},
+        "absolute-self": {"d/abs": "{ROOT}/d", "d/abs2": "{ROOT}/d"},
+        "dangling-and-file": {"d/gone": "nowhere", "d/l.circom": "t.circom", "d/self": "l.circom"},
+        "link-loop": {"d/x": "y", "d/y": "x", "d/a": ".", "d/b": "."},
+    }
+    out = []
+    for lname, links in link_sets.items():
+        for aname, argv, cwd in (("dir", ["d"], ""), ("dir-slash", ["d/"], ""), ("two-dirs", ["d", "e"], ""), ("dot", ["."], ""),
+                                 ("from-inside", ["."], "d"), ("parent-spelling", ["../d"], "e"), ("absolute", ["{ROOT}/d"], ""),
+                                 ("as-library", ["e/v.circom", "-L", "d"], ""), ("file-and-dir", ["d/t.circom", "d"], "")):
+            out.append(Case("adversarial:linked-directory:" + lname, dict(base), list(argv), note="named as " + aname,
+                            links=dict(links), cwd=cwd))
+    return out
+
+
 def include_projects():
     """[Case]: small projects whose include graph runs through library paths."""
     P = "pragma circom 2.0.0;\n"
@@ -924,8 +971,12 @@ def adversarial_cases(ctx, stats, thorough):
         "pragma circom 2.0.0;\n" + "".join("template T%d() { signal input a; signal output b; b <== a; }\n" % i
                                             for i in range(10 ** 4 if thorough else 2000)),
         note="10^4 definitions in the thorough tier (300 kB, beyond `modest size`)")
+    # fourth audit: definitions of several hundred statements in the quick tier too (sizes chosen so that the unchanged
+    # debug build needs 2 - 8 s alone: the machine is shared and 16 runs side by side cost a factor 3 - 4; the sizes 500 and 1000 are in the thorough tier); every `flat:` case runs with the debug log of cfg.rs on (run()), so that boxed
+    # and unboxed time are known for each of them, time-out or not
+    QUICK_LONG = {"statements": 300, "signals": 250, "vars-declared": 500, "phi-web": 100, "value-chain": 500, "constant-chain": 250}
     for name, fn in FLAT_SHAPES.items():
-        for n in ((60, 120) if not thorough else (60, 120, 250, 500)):
+        for n in ((60, 120, QUICK_LONG[name]) if not thorough else (60, 120, 250, 500, 1000)):
             add("flat:%s-%d" % (name, n), fn(n))
     add("params-1000", "template T(%s) { }\ncomponent main = T(%s);\n" % (", ".join("p%d" % i for i in range(1000)),
                                                                               ", ".join("1" for _ in range(1000))))
@@ -974,6 +1025,27 @@ def adversarial_cases(ctx, stats, thorough):
     add("same-file-twice", None, ["x.circom", "x.circom", "./x.circom"], files={"x.circom": good})
     add("many-files", None, ["f%d.circom" % i for i in range(60)],
         files={"f%d.circom" % i: T("x = %d;" % i).replace("T()", "T%d()" % i).encode() for i in range(60)})
+    # fourth audit: projects with more than 64 and more than 256 files, named, in a named directory, included from one
+    # file (fan) and in a chain (a per-file bit mask, a fixed-size table or a cap on the number of files shows from
+    # file 65 / 257 on)
+    def small(i):
+        return T("x = %d;" % i).replace("T()", "T%d()" % i).encode()
+
+    def with_includes(incs, src):
+        head, rest = src.split("\n", 1)         # the pragma stays first
+        return (head + "\n" + incs + rest).encode()
+    for n in (70, 300):
+        add("many-files-%d" % n, None, ["f%d.circom" % i for i in range(n)], files={"f%d.circom" % i: small(i) for i in range(n)})
+        add("many-files-%d-directory" % n, None, ["p"], files={"p/f%d.circom" % i: small(i) for i in range(n)})
+        add("include-fan-%d" % n, None, ["m.circom", "--level", "INFO"],
+            files=dict({"m.circom": with_includes("".join('include "f%d.circom";\n' % i for i in range(n)), T("x = 0;"))},
+                       **{"f%d.circom" % i: small(i) for i in range(n)}))
+        add("include-chain-%d" % n, None, ["i0.circom"],
+            files={"i%d.circom" % i: with_includes('include "i%d.circom";\n' % (i + 1) if i < n - 1 else "",
+                                                    T("x = %d;" % i).replace("T()", "T%d()" % i)) for i in range(n)})
+        add("include-fan-%d-library" % n, None, ["m.circom", "-L", "lib"],
+            files=dict({"m.circom": with_includes("".join('include "g/f%d.circom";\n' % i for i in range(n)), T("x = 0;"))},
+                       **{"lib/g/f%d.circom" % i: small(i) for i in range(n)}))
     add("include-self", None, ["x.circom"], files={"x.circom": b'include "x.circom";\n' + good})
     add("include-cycle", None, ["x.circom"], files={"x.circom": b'include "y.circom";\n' + good,
                                                     "y.circom": b'include "x.circom";\n'})
@@ -1003,6 +1075,12 @@ def adversarial_cases(ctx, stats, thorough):
     # relative to a working directory below the project.  All of them are a few hundred bytes and nest three levels: a
     # time-out or a memory blow-up falls into no known class and is reported with the project as input.
     for c in include_projects():
+        out.append(c)
+    # fourth audit (reviewer A, section 0; fixed in /repo 517e7a0): NAMED DIRECTORIES that contain symbolic links to
+    # themselves, to an ancestor, to a sibling, and link cycles between directories.  Before the fix two links to `.`
+    # made the directory walk of FileStack::add_files exponential in the kernel's limit of 40 links: a 92-byte project
+    # that never ended.  (C19's generator allowed one self-link per directory at most for that very reason.)
+    for c in linked_directories():
         out.append(c)
     # third audit: one name defined twice - every pairing of template / function (a clash BETWEEN the two kinds
     # included: the merger keeps two maps and labels the earlier definition by looking the name up), in one file,
@@ -1153,12 +1231,15 @@ def classify_cheap(ctx, case, res):
       definition lasts longer than the tool's time box (RECORDED_BOX_S) plus
       BOX_SLACK_S.  The mechanism the class names is "many definitions / phases,
       each cut by its 10 s box, plus the unboxed passes"; a single propagation that
-      outlives its box is a failure of the box and NOT in the class."""
+      outlives its box is a failure of the box and NOT in the class.  Fourth audit: AND the
+      time outside the boxed phases (wall - sum of boxed phases) stays within
+      max(20 s, unboxed_bound(input)), a cost model calibrated on the unchanged tool."""
     ids = {k["id"]: k for k in ctx.known}
     deepest = max([nesting_depth(v) for v in case.files.values()] + [0])
     if res.get("panic") == "stack overflow" and res.get("rc") in (-6, -11) and deepest > MODEST_DEPTH:
         return ids.get("C01-stack-depth")
-    if (res.get("timed_out") or res.get("panic") == "memory allocation failed") and deepest > MODEST_DEPTH:
+    structural = max([nesting_depth(v, operators=False) for v in case.files.values()] + [0])
+    if (res.get("timed_out") or res.get("panic") == "memory allocation failed") and structural > MODEST_DEPTH:
         return ids.get("C01-deep-nesting-resources")
     if res.get("timed_out") and "C01-long-definition-time" in ids \
             and max([longest_definition(v) for v in case.files.values()] + [0]) > LONG_DEFINITION:
@@ -1183,11 +1264,49 @@ def classify_known(ctx, case, res, binary=None, root=None):
         if over:
             PHASE_STATS["phases_beyond_box_plus_slack"] += len(over)
             return None
+        ub, us = unboxed_bound(case), unboxed_seconds(r)
+        res["rerun_long_watchdog"].update({"unboxed_seconds": us, "unboxed_cost_model_bound": ub})
+        if not r["timed_out"] and us > max(ub, WATCHDOG_S):
+            # the boxed phases do not explain the wall time and the rest is slower than the calibrated cost model
+            PHASE_STATS["unboxed_beyond_cost_model"] += 1
+            res["rerun_long_watchdog"]["unboxed_beyond_cost_model"] = True
+            return None
         return None if judge(r) else {k2["id"]: k2 for k2 in ctx.known}["C01-long-definition-time"]
     return k
 
 
-PHASE_STATS = {"long_reruns": 0, "boxed_phases_timed": 0, "box_fired": 0, "longest_phase_s": 0.0, "phases_beyond_box_plus_slack": 0}
+def unboxed_bound(case):
+    """Fourth audit: what the UNBOXED phases of a run (everything but value / degree propagation: parsing, lifting,
+    dominators, SSA, variable-use caching, the 13 passes, output) may take, from a cost model calibrated on the
+    unchanged tool (debug build, alone; measured 2026-09: 250 / 500 sequential `if`s 44 / 172 s, 250 / 500 signals
+    with constraints 6.3 / 22.9 s, 2000 assignments 8.6 s - all quadratic): 5 s + 3 x (7e-4 b^2 + 1e-4 g^2 + 2.5e-6 n^2),
+    b = branching keywords of the input, g = signal / component keywords, n = statements of the longest definition.
+    The factor 3 absorbs load; a slow-down of these phases beyond it is NOT a known finding."""
+    b = g = 0
+    for v in case.files.values():
+        toks = [m.group(0) for m in TOK.finditer(strip_comments(v))]
+        b += sum(1 for t in toks if t in (b"if", b"while", b"for", b"?"))
+        g += sum(1 for t in toks if t in (b"signal", b"component"))
+    n = max([longest_definition(v) for v in case.files.values()] + [0])
+    return round(load_factor() * (5.0 + 3.0 * (7e-4 * b * b + 1e-4 * g * g + 2.5e-6 * n * n)), 1)
+
+
+def load_factor():
+    """The machine is shared: the bound is scaled by the 1-minute load average per core when that exceeds 1 (recorded
+    in the evidence as time_box.load_factor_max; on an idle machine the factor is 1 and the bound is the calibrated one)."""
+    try:
+        f = max(1.0, os.getloadavg()[0] / (os.cpu_count() or 1))
+    except OSError:
+        f = 1.0
+    PHASE_STATS["load_factor_max"] = round(max(PHASE_STATS.get("load_factor_max", 1.0), f), 2)
+    return f
+
+
+def unboxed_seconds(res):
+    return round(res["wall"] - sum(p["seconds"] for p in (res.get("phases") or [])), 2)
+
+
+PHASE_STATS = {"long_reruns": 0, "unboxed_beyond_cost_model": 0, "boxed_phases_timed": 0, "box_fired": 0, "longest_phase_s": 0.0, "phases_beyond_box_plus_slack": 0}
 
 
 # --------------------------------------------------------------------------
@@ -1196,7 +1315,7 @@ PHASE_STATS = {"long_reruns": 0, "boxed_phases_timed": 0, "box_fired": 0, "longe
 
 def run_all(binary, cases, root, workers):
     def one(i):
-        return run_case(binary, cases[i], root, i)
+        return run_case(binary, cases[i], root, i, trace=cases[i].kind.startswith("adversarial:flat:"))
     with concurrent.futures.ThreadPoolExecutor(max_workers=workers) as ex:
         return list(ex.map(one, range(len(cases))))
 
@@ -1262,6 +1381,7 @@ def run(ctx, proofs):
     cases += bytes_cases(ctx, n_bytes, stats)
 
     failures = []       # (build, case, res, reasons)
+    flat_timed = []     # long flat definitions that ended in time, run with the debug log of cfg.rs on
     evaluations = 0
     outcome = collections.Counter()
     shapes = set()
@@ -1280,6 +1400,8 @@ def run(ctx, proofs):
             analysed += 1 if r["analysed"] else 0
             if r["wall"] > 5:
                 slow.append((r["wall"], bname, c.kind, c.depth))
+            if r.get("phases") is not None and not bad:
+                flat_timed.append((bname, binary, c, r))
             if bad:
                 failures.append((bname, binary, c, r, bad))
             else:
@@ -1321,6 +1443,24 @@ def run(ctx, proofs):
             if not pending[key] or (key not in passed_some and confirmed[key] >= 3):
                 del pending[key]          # nothing left, or the class is confirmed to time out
     failures = [f for f in failures if f[4]]
+    # fourth audit: the time OUTSIDE the boxed phases of every long flat definition against the calibrated cost model;
+    # an excess is re-measured alone before it counts
+    unboxed_rows = []
+    for bname, binary, c, r in flat_timed:
+        us, ub = unboxed_seconds(r), unboxed_bound(c)
+        row = {"kind": c.kind, "build": bname, "wall": r["wall"], "boxed": round(r["wall"] - us, 2), "unboxed": us, "bound": ub}
+        if us > ub:
+            r2 = run_case(binary, c, os.path.join(root, "alone-" + bname), "unboxed-%d" % len(unboxed_rows), trace=True)
+            row["unboxed_alone"] = unboxed_seconds(r2)
+            if not judge(r2) and row["unboxed_alone"] > ub and len(ctx.violations) < 8:
+                PHASE_STATS["unboxed_beyond_cost_model"] += 1
+                ctx.violation("circomspect (%s build) on a %d-byte input [%s]: %.1f s outside the time-boxed propagation phases "
+                              "(%.1f s when re-run alone); the cost model calibrated on the unchanged tool allows %.1f s for this "
+                              "input" % (bname, c.size(), c.kind, us, row["unboxed_alone"], ub),
+                              {"input": c.to_json(), "build": bname, "impl": {"rc": r2["rc"], "wall": r2["wall"],
+                               "phases": r2.get("phases"), "unboxed_seconds": row["unboxed_alone"]},
+                               "spec": "time outside value / degree propagation <= load factor x (5 s + 3 x (7e-4 b^2 + 1e-4 g^2 + 2.5e-6 n^2)) = %.1f s" % ub})
+        unboxed_rows.append(row)
     run_s = time.time() - t_run
 
     # verdicts. Every failing input is classified on its own; those outside the
@@ -1359,6 +1499,12 @@ def run(ctx, proofs):
         what = "circomspect (%s build) on a %d-byte input [%s]: %s (%d failing inputs with this signature)" % (
             bname, small.size(), c.kind, "; ".join(judge(r2) or bad), len(group))
         over = (r.get("rerun_long_watchdog") or {}).get("phases_beyond_box_plus_slack")
+        lw_ = r.get("rerun_long_watchdog") or {}
+        if lw_.get("unboxed_beyond_cost_model"):
+            what += ("; under the %d s watchdog the run took %.1f s of which %.1f s lie OUTSIDE the time-boxed propagation phases; "
+                     "the cost model calibrated on the unchanged tool allows %.1f s for this input, so the run is outside the "
+                     "known class C01-long-definition-time" % (LONG_WATCHDOG_S, lw_["wall"], lw_["unboxed_seconds"],
+                                                               max(lw_["unboxed_cost_model_bound"], WATCHDOG_S)))
         if over:
             what += ("; under the %d s watchdog a single %s-propagation phase of `%s` lasted %.1f s: the tool's own time box "
                      "(%.0f s, + %.0f s slack) did not cut it, so the run is outside the known class C01-long-definition-time"
@@ -1514,9 +1660,12 @@ def run(ctx, proofs):
         "mutation_seeds": len(seeds), "timeouts_remeasured_alone": rerun_alone,
         "cross_file_name_clashes_generated": dict(collections.Counter(stats["cross_file_name_clashes"])),
         "library_include_graphs_generated": dict(collections.Counter(stats["library_include_graphs_generated"])),
+        "linked_directory_cases": sum(1 for c in cases if c.kind.startswith("adversarial:linked-directory")),
+        "random_named_directories_with_links": dict(collections.Counter(stats["named_directory_links"])),
         "include_project_matrix_cases": sum(1 for c in cases if c.kind.startswith("adversarial:include-project")),
         "name_clash_matrix_cases": sum(1 for c in cases if c.kind.startswith("adversarial:name-clash")),
         "known_witness_outcomes": witness_outcomes,
+        "long_flat_definitions_timed": unboxed_rows,
         "time_box": {"in_source": tb, "recorded_seconds": RECORDED_BOX_S, "slack_seconds": BOX_SLACK_S, **PHASE_STATS,
                      "rule": "every time-out that is a candidate of C01-long-definition-time is re-run under the %d s watchdog "
                              "with the debug log of cfg.rs on; each value / degree propagation phase of each definition is "
